@@ -11,15 +11,17 @@ RequireUniqueNames / custom Cmds / custom Condition / duplicate archive names)
 and a vocabulary of ~230 concrete lines.
 
 TLC explores the interpreter's state graph to a depth bound (VIEW hides the
-history), checks the laws of the statement in every state (VerdictLaw,
+history but keeps the script length, so the explored set does not depend on
+worker scheduling), checks the laws of the statement in every state (VerdictLaw,
 FreezeLaw, NoNegLaw, NegLaw, CondLaw, PadLaw, TreeLaw) and emits one script per
 transition with the predicted verdict, first reported line, final work tree and
 probe observations.  harness/drivers/testscript runs every script through the
 real testscript.RunT with a recording T (helper programs installed through the
 real testscript.Main) and compares; scripts that need nothing the standalone
 command lacks are also given to the built cmd/testscript (exit status 0 iff the
-verdict is not "fail", with and without -continue).  The thorough tier adds
-TLC-simulated long scripts.
+verdict is not "fail", with and without -continue).  A second generator run
+explores the data-flow lines (stdin, exec, buffers, env, cd, background
+commands) one line deeper; the thorough tier adds TLC-simulated long scripts.
 """
 import os
 import shutil
@@ -128,7 +130,7 @@ def check(ctx):
         raise NoVerdict("the file-permission part of the specification is written for a process without permission restrictions (root)")
     quick = ctx.tier == "quick"
     depth_main, depth_aux = (2, 1) if quick else (3, 2)
-    cli_max = 600 if quick else 4000
+    cli_max = 450 if quick else 4000
     drv = go_build(ctx, "drivers/testscript")
     cli = go_build_repo(ctx, "./cmd/testscript", "ts-cli")
     log("[%5.1fs] harness and cmd/testscript built" % (time.time() - ctx.t0))
@@ -208,7 +210,7 @@ def check(ctx):
             sim = ctx.path("sim.ndjson")
             with open(sim, "w") as fh:
                 fh.write(header)
-            per_worker = 2000
+            per_worker = 1500
             res2 = tlc(ctx, SPECDIR, "MC_Testscript.tla", "MC_Testscript_sim.cfg", cfg_text=gen_cfg(9, 9, "terminal"),
                        emit_to=sim, workers=NCPU, timeout=1500, simulate="num=%d" % per_worker, depth=14, expect_violation=True)
             if res2.violation:
